@@ -342,3 +342,135 @@ Theorem C02_is_multiple_of_const : forall w, 0 < w -> forall a d, 0 < d < B w * 
 Proof. exact is_multiple_of_const_unconditional. Qed.
 Print Assumptions C02_is_multiple_of_const.
 
+(** ** scratch memory (round 3): the amount div::memory_requirement_exact reserves is enough for the whole
+       recursion, for every pair of lengths.  Int/DivMemModel.v computes the exact peak (allocations and recursive
+       calls of karatsuba.rs / toom_3.rs, the requirement formulas and the kernel selection are REGENERATED into
+       coq/gen/DivDispatch.v by tools/translate_c02_r3.py; chunk splitting and the Burnikel-Ziegler recursion are
+       transcribed); the run compares both numbers with the library (smallest sufficient scratch by bisection). *)
+From Dashu Require Import Int.DivMemBase Int.DivMemModel Int.DivMemProofs.
+From DashuGen Require Import DivDispatch.
+
+(** mul::add_signed_mul_same_len on n-word factors never takes more than mul::memory_requirement_exact(_, n) *)
+Theorem C02_mem_mul_same_len : forall t n, 0 <= n ->
+  exists p, mul_same_peak_auto n = Ok p /\ 0 <= p <= g_mul_mem_exact t n.
+Proof. intros t n Hn. exact (mul_same_sufficient n Hn). Qed.
+Print Assumptions C02_mem_mul_same_len.
+
+(** mul::add_signed_mul on any two lengths: the requirement for the shorter factor is enough (chunks + rest) *)
+Theorem C02_mem_mul : forall t la lb, 0 <= la -> 0 <= lb ->
+  exists p, mul_peak_auto la lb = Ok p /\ 0 <= p <= g_mul_mem_exact t (Z.min la lb).
+Proof. intros t la lb Ha Hb. exact (mul_peak_auto_sufficient la lb Ha Hb). Qed.
+Print Assumptions C02_mem_mul.
+
+(** div::div_rem_in_place / div_rem_unshifted_in_place on lhs_len >= rhs_len >= 2 (the assertion of
+    memory_requirement_exact itself): never out of scratch, never out of fuel *)
+Theorem C02_mem_div : forall l n, g_div_mem_req_pre l n = true ->
+  exists p, div_peak l n = Ok p /\ 0 <= p <= g_div_mem_req l n.
+Proof. exact div_peak_sufficient. Qed.
+Print Assumptions C02_mem_div.
+
+(** the same for each kernel selection of the verification hook (0 dispatch, 1 schoolbook, 2 divide and conquer) *)
+Theorem C02_mem_hook : forall which l n, 2 <= n <= l ->
+  exists p, hook_peak which l n = Ok p /\ 0 <= p <= hook_reserved which l n.
+Proof. exact hook_peak_sufficient. Qed.
+Print Assumptions C02_mem_hook.
+
+(** the integer form of the source's "20 log_3 n < 13 log_2 n": a Toom-3 recursion of depth d on n words *)
+Theorem C02_mem_toom_depth : forall n d, 1 <= d -> 32 * 3 ^ d <= 2 * n - 5 -> 20 * d <= 13 * ceil_log2 n.
+Proof. exact toom_depth. Qed.
+Print Assumptions C02_mem_toom_depth.
+
+(** ** div_ops.rs::repr with its ownership arms (round 3): the 12 `impl DivRem / Div / Rem <TypedRepr | TypedReprRef>
+       for TypedRepr | TypedReprRef` (Int/DivOwn.v).  Which helper an arm calls with which operand is REGENERATED
+       (coq/gen/DivDispatch.v: g_repr_divrem_arm, g_repr_div_arm, g_repr_rem_arm); the helpers (div_rem_in_lhs with
+       push_resizing, div_large = erase_front only, rem_large = copy + shift back only, *_large_dword, *_dword, the
+       shorter-dividend arms incl. clone_from_slice into the divisor's buffer) are transcribed. *)
+From Dashu Require Import Int.DivOwn Int.DivOwnProofs.
+
+(** Repr::from_buffer (Buffer::pop_zeros, inline storage of up to two words) builds the canonical representation *)
+Theorem C02_from_buffer_canonical : forall w, 0 < w -> forall ws, wf w ws -> from_buffer w ws = repr_of w (value w ws).
+Proof. exact from_buffer_repr. Qed.
+Print Assumptions C02_from_buffer_canonical.
+
+(** every canonical operand (Small below B^2; Large = at least 3 well-formed words, top word non-zero) is repr_of its value *)
+Theorem C02_canon_repr_of : forall w, 0 < w -> forall t, canon w t -> t = repr_of w (tvalue w t) /\ 0 <= tvalue w t.
+Proof. exact canon_repr_of. Qed.
+Print Assumptions C02_canon_repr_of.
+
+(** DivRem, every ownership combination: the canonical quotient and remainder, or the DivideBy0 panic *)
+Theorem C02_typed_div_rem : forall w, 0 < w -> forall div2by1 div3by2 div4by2,
+  contract_2by1 w div2by1 -> contract_3by2 w div3by2 -> contract_4by2 w div4by2 ->
+  forall mul_sub, contract_mul_sub w mul_sub -> forall T, (2 <= T)%nat ->
+  forall o0 o1 a b, 0 <= a -> 0 <= b ->
+  typed_div_rem w div2by1 div3by2 div4by2 mul_sub T o0 o1 (repr_of w a) (repr_of w b) =
+  if b =? 0 then Panic DivideBy0 else Ok (repr_of w (a / b), repr_of w (a mod b)).
+Proof. exact typed_div_rem_correct. Qed.
+Print Assumptions C02_typed_div_rem.
+
+(** Div only (div_large: no copy of the remainder, no shift back) *)
+Theorem C02_typed_div : forall w, 0 < w -> forall div2by1 div3by2 div4by2,
+  contract_2by1 w div2by1 -> contract_3by2 w div3by2 -> contract_4by2 w div4by2 ->
+  forall mul_sub, contract_mul_sub w mul_sub -> forall T, (2 <= T)%nat ->
+  forall o0 o1 a b, 0 <= a -> 0 <= b ->
+  typed_div w div2by1 div3by2 div4by2 mul_sub T o0 o1 (repr_of w a) (repr_of w b) =
+  if b =? 0 then Panic DivideBy0 else Ok (repr_of w (a / b)).
+Proof. exact typed_div_correct. Qed.
+Print Assumptions C02_typed_div.
+
+(** Rem only (rem_by_word / rem_by_dword for Small divisors, rem_large without erase_front) *)
+Theorem C02_typed_rem : forall w, 0 < w -> forall div1by1 div2by1 div2by2 div3by2 div4by2,
+  contract_1by1 w div1by1 -> contract_2by1 w div2by1 -> contract_2by2 w div2by2 -> contract_3by2 w div3by2 -> contract_4by2 w div4by2 ->
+  forall mul_sub, contract_mul_sub w mul_sub -> forall T, (2 <= T)%nat ->
+  forall o0 o1 a b, 0 <= a -> 0 <= b ->
+  typed_rem w div1by1 div2by1 div2by2 div3by2 div4by2 mul_sub T o0 o1 (repr_of w a) (repr_of w b) =
+  if b =? 0 then Panic DivideBy0 else Ok (repr_of w (a mod b)).
+Proof. exact typed_rem_correct. Qed.
+Print Assumptions C02_typed_rem.
+
+(** nothing assumed: num-modular and add_signed_mul transcribed, word sizes w >= 8 *)
+Theorem C02_typed_unconditional : forall w, 8 <= w -> forall o0 o1 a b, 0 <= a -> 0 <= b ->
+  s_typed_div_rem w o0 o1 (repr_of w a) (repr_of w b) =
+    (if b =? 0 then Panic DivideBy0 else Ok (repr_of w (a / b), repr_of w (a mod b))) /\
+  s_typed_div w o0 o1 (repr_of w a) (repr_of w b) = (if b =? 0 then Panic DivideBy0 else Ok (repr_of w (a / b))) /\
+  s_typed_rem w o0 o1 (repr_of w a) (repr_of w b) = (if b =? 0 then Panic DivideBy0 else Ok (repr_of w (a mod b))).
+Proof. exact s_typed_unconditional. Qed.
+Print Assumptions C02_typed_unconditional.
+
+(** ** the index arithmetic of fast_rem_by_normalized_word / _dword (round 3; Int/DivRemIdx.v: `while i > 2 { i -= 2; ..
+       words[i - 1], words[i] .. } if i == 2 { .. words[0] .. }` with out-of-range indexing and usize wrap as panics):
+       never out of range, the slice length is enough fuel, and the loops are the list recursions that rem_by_word,
+       rem_by_dword, is_multiple_of_const and ConstDivisor::rem are proved correct with - any primitives, any word size *)
+From Dashu Require Import Int.DivRemIdx Int.DivRemIdxProofs.
+
+Theorem C02_fast_rem_dword_idx : forall w div2by2 div3by2 div4by2 d ws, (2 <= length ws)%nat ->
+  fast_rem_dword_idx w div2by2 div3by2 div4by2 d ws = Ok (rem_dword_loop w div2by2 div3by2 div4by2 d ws).
+Proof. exact fast_rem_dword_idx_correct. Qed.
+Print Assumptions C02_fast_rem_dword_idx.
+
+Theorem C02_fast_rem_word_idx : forall w div1by1 div2by1 d ws, (1 <= length ws)%nat ->
+  fast_rem_word_idx w div1by1 div2by1 d ws = Ok (rem_word_loop w div1by1 div2by1 d ws).
+Proof. exact fast_rem_word_idx_correct. Qed.
+Print Assumptions C02_fast_rem_word_idx.
+
+Theorem C02_rem_by_idx : forall w div1by1 div2by1 div2by2 div3by2 div4by2 ws rhs,
+  ((1 <= length ws)%nat -> rem_by_word_idx w div1by1 div2by1 ws rhs = Ok (rem_by_word w div1by1 div2by1 ws rhs)) /\
+  ((2 <= length ws)%nat -> rem_by_dword_idx w div2by2 div3by2 div4by2 ws rhs = Ok (rem_by_dword w div2by2 div3by2 div4by2 ws rhs)).
+Proof.
+  intros w d11 d21 d22 d32 d42 ws rhs. split; intros H.
+  - exact (rem_by_word_idx_correct w d11 d21 ws rhs H).
+  - exact (rem_by_dword_idx_correct w d22 d32 d42 ws rhs H).
+Qed.
+Print Assumptions C02_rem_by_idx.
+
+(** ** the rows of impl_div_primitive_with_ubig! / _ibig! REGENERATED from div_ops.rs + helper_macros.rs agree with the
+       model of Int/DivPrim.v (same traits, same components converted back with try_into().unwrap(), same type
+       pairing - a finite table, checked by computation), and the specification of a form is "the big-integer
+       operation, then every converted component must fit the primitive" *)
+From Dashu Require Import Int.DivPrimRows.
+Theorem C02_prim_rows : prim_rows_ok = true /\
+  forall k pt x p, prim_form_spec k pt x p =
+    rbind (form_spec (pform_big k) (fst (prim_operands k x p)) (snd (prim_operands k x p)))
+          (fun l => if flagged_fit pt (pform_flags k) l then Ok l else Panic Undocumented).
+Proof. exact (conj prim_rows_consistent prim_spec_by_flags). Qed.
+Print Assumptions C02_prim_rows.
+
